@@ -9,6 +9,9 @@
 //   K\t<hex s>        -> hex(pascal_to_cddl_name(s)) (pub(crate), called directly)
 //   G\t<hex schema>   -> "OK <hex of generated Rust source>" | "PARSE <hex message>" | "GEN <hex message>"
 //                        = cddl_from_str(schema, true) ; generate_all_types(ast, schema, default options)
+//   GN\t<n>\t<hex schema> -> "SAME <hex source>" when n calls of generate_all_types in this process give byte-identical
+//                        text (each call parses the schema afresh, as the macro does), else "DIFF <hex first> <hex other>";
+//                        "PARSE .." / "GEN .." as for G
 //   V\t<hex schema>\t<hex json> -> "VALID" | "INVALID <hex message>"     cddl::validate_json_from_str
 #![allow(dead_code)]
 #[path = "/repo/cddl-derive/src/codegen.rs"]
@@ -53,6 +56,30 @@ fn dispatch(parts: &[&str]) -> String {
           Err(e) => format!("GEN {}", hex_of(&e.to_string())),
         },
       }
+    }
+    "GN" => {
+      let n: usize = parts.get(1).and_then(|x| x.parse().ok()).unwrap_or(2);
+      let src = unhex_str(parts.get(2).copied().unwrap_or(""));
+      let mut first: Option<String> = None;
+      for _ in 0..n.max(1) {
+        let ast = match cddl::cddl_from_str(&src, true) {
+          Err(e) => return format!("PARSE {}", hex_of(&e)),
+          Ok(a) => a,
+        };
+        let code = match generate_all_types(&ast, &src, &CodegenOptions::default()) {
+          Ok(c) => c,
+          Err(e) => return format!("GEN {}", hex_of(&e.to_string())),
+        };
+        match &first {
+          None => first = Some(code),
+          Some(f) => {
+            if *f != code {
+              return format!("DIFF {} {}", hex_of(f), hex_of(&code));
+            }
+          }
+        }
+      }
+      format!("SAME {}", hex_of(&first.unwrap_or_default()))
     }
     "V" => {
       let src = unhex_str(parts.get(1).copied().unwrap_or(""));
